@@ -991,3 +991,113 @@ def uniform_swing_request_replay(lambda_=3.0):
     finally:
         QuantileRegressionSolver.fit = real_fit
     return out
+
+
+def stopped_thin_race_replay(side="left"):
+    """REAL BootstrapElectionModel.get_aggregate_prediction_intervals (state level) on a model object whose bootstrap state
+    is set by hand: contest AA is razor-thin (its whole interval lies strictly between 0 and the call threshold 0.005,
+    on the given side), it is NOT called, and it is on the stop list -> the reported interval must contain zero"""
+    from elexmodel.models.BootstrapElectionModel import BootstrapElectionModel
+
+    B = 21
+    sgn = 1.0 if side == "left" else -1.0
+    m = BootstrapElectionModel({"features": ["baseline_normalized_margin"], "B": B})
+    rep = pd.DataFrame({"postal_code": ["AA", "BB"], "geographic_unit_fips": ["a1", "b1"], "baseline_weights": [1000.0, 1000.0], "results_normalized_margin": [0.002 * sgn, 0.2], "turnout_factor": [1.0, 1.0], "reporting": 1})
+    non = pd.DataFrame({"postal_code": ["AA", "BB"], "geographic_unit_fips": ["a2", "b2"], "baseline_weights": [100.0, 100.0], "reporting": 0})
+    unx = pd.DataFrame({"postal_code": pd.Series([], dtype=str), "geographic_unit_fips": pd.Series([], dtype=str), "results_margin": pd.Series([], dtype=float), "results_weights": pd.Series([], dtype=float), "reporting": pd.Series([], dtype=int)})
+    delta = np.linspace(-0.05, 0.05, B)
+    m.errors_B_2 = np.tile(np.array([[0.25 * sgn], [20.0]]), (1, B))
+    m.errors_B_1 = m.errors_B_2 + np.vstack([delta, delta])
+    m.errors_B_3 = np.full((2, B), 100.0)
+    m.errors_B_4 = np.full((2, B), 100.0)
+    m.weighted_z_test_pred = np.array([[100.0], [100.0]])
+    m.weighted_yz_test_pred = np.array([[0.25 * sgn], [20.0]])
+    m.aggregate_pred_margin = np.array([[0.0025 * sgn], [0.2]])
+    m.ran_bootstrap = True
+    out = {"exc": None}
+    try:
+        pi = m.get_aggregate_prediction_intervals(rep, non, unx, ["postal_code"], 0.9, None, "margin", lhs_called_contests=[], rhs_called_contests=[], stop_model_call=["AA"])
+        lo, up = float(np.asarray(pi.lower).ravel()[0]), float(np.asarray(pi.upper).ravel()[0])
+        out.update(lower=lo, upper=up, other=[float(np.asarray(pi.lower).ravel()[1]), float(np.asarray(pi.upper).ravel()[1])])
+        out["ok"] = bool(lo <= 0 <= up)
+    except Exception as e:  # noqa
+        out["exc"] = f"{type(e).__name__}: {e}"
+        out["ok"] = False
+    return out
+
+
+def called_contests_no_uncertainty_replay(correlated, hard):
+    """REAL get_national_summary_estimates on a hand-set model: every contest is CALLED (none stop-listed) while the
+    bootstrap draws are wide -> there is no uncertainty left: lower == prediction == upper"""
+    from elexmodel.models.BootstrapElectionModel import BootstrapElectionModel
+
+    B = 40
+    m = BootstrapElectionModel({"features": ["baseline_normalized_margin"], "B": B, "agg_model_hard_threshold": hard, "national_summary_correlation": correlated})
+    rng = np.random.default_rng(1)
+    m.aggregate_pred_margin = np.array([[0.01], [-0.02], [0.03]])
+    m.divided_error_B_1 = rng.normal(0, 0.2, size=(3, B))
+    m.divided_error_B_2 = rng.normal(0, 0.2, size=(3, B))
+    m.called_contests = np.array([[1], [0], [1]])
+    m.stop_model_call = np.array([[False], [False], [False]])
+    out = {"exc": None}
+    try:
+        r = m.get_national_summary_estimates({"A": 3, "B": 5, "C": 4}, 0, 0.9)["margin"]
+        out.update(pred=float(r[0]), lower=float(r[1]), upper=float(r[2]))
+        out["ok"] = bool(abs(r[1] - r[0]) < 1e-9 and abs(r[2] - r[0]) < 1e-9)
+    except Exception as e:  # noqa
+        out["exc"] = f"{type(e).__name__}: {e}"
+        out["ok"] = False
+    return out
+
+
+def version_history_replay(dem, gop, last_pev=100.0, turnout=None, weights=None, pev=None, margin=None):
+    """REAL VersionedDataHandler.compute_versioned_margin_estimate on ONE unit's history (lists of dem / gop counts per
+    version, turnout = dem + gop): an irregular history (decreasing turnout, or a batch whose margin change exceeds its
+    size -- including a vote swap with unchanged total) must be discarded (only missing values, 101 rows); a regular one
+    must be accepted with finite margins within [-1, 1]"""
+    from elexmodel.handlers.data.VersionedData import VersionedDataHandler
+
+    dem = np.array([float(x or 0) for x in dem])
+    gop = np.array([float(x or 0) for x in gop])
+    nv = len(dem)
+    w = np.array([float(x or 0) for x in weights]) if weights is not None else dem + gop
+    tt = np.array([float(x or 0) for x in turnout]) if turnout is not None else w
+    pv = np.array([float(x or 0) for x in pev]) if pev is not None else (np.linspace(10, last_pev, nv) if nv > 1 else np.array([float(last_pev)]))
+    mg = np.array([float(x or 0) for x in margin]) if margin is not None else np.where(w > 0, (dem - gop) / np.maximum(w, 1), 0.0)
+    out = {"exc": None, "dem": dem.tolist(), "gop": gop.tolist(), "weights": w.tolist(), "turnout": tt.tolist()}
+    if nv == 0 or tt[-1] <= 0 or (dem < 0).any() or (gop < 0).any() or (tt < 0).any() or (pv < 0).any() or (np.abs(mg) > 1).any() or pv[-1] > 150:
+        # the solver's history is outside the input validity predicate at a version the proof did not instantiate:
+        # fall back to a battery of small valid histories (repeated versions, vote swaps with unchanged total,
+        # downward revisions, impossible batches)
+        import itertools
+
+        grid = [(30, 10), (35, 5), (40, 40), (60, 20), (20, 60)]
+        for nv2 in (2, 3):
+            for hist in itertools.product(grid, repeat=nv2):
+                r = version_history_replay([x[0] for x in hist], [x[1] for x in hist])
+                if not r["ok"]:
+                    r["note"] = "battery history (the solver's own history was not a valid input)"
+                    return r
+        out["ok"] = True
+        out["note"] = "battery of valid histories: all clauses hold"
+        return out
+    df = pd.DataFrame({"geographic_unit_fips": "u", "results_dem": dem, "results_gop": gop, "results_weights": w, "results_turnout": tt, "percent_expected_vote": pv, "results_normalized_margin": mg})
+    h = VersionedDataHandler.__new__(VersionedDataHandler)
+    try:
+        res = h.compute_versioned_margin_estimate(df.copy())
+    except Exception as e:  # noqa
+        out["exc"] = f"{type(e).__name__}: {e}"
+        out["ok"] = False
+        return out
+    monotone = all(tt[i] <= tt[i + 1] for i in range(nv - 1))
+    dw, dn = np.diff(w), np.diff(dem) - np.diff(gop)
+    impossible = any((dw[i] != 0 and abs(dn[i]) > abs(dw[i])) or (dw[i] == 0 and dn[i] != 0) for i in range(nv - 1))
+    et = set(map(str, res["error_type"]))
+    out["error_type"] = sorted(et)
+    out["irregular"] = bool(not monotone or impossible)
+    if out["irregular"]:
+        out["ok"] = bool(res["est_correction"].isna().all() and et <= {"non-monotone percent expected vote", "batch_margin"} and len(res) == 101)
+    else:
+        est = res["est_margin"].to_numpy(dtype=float)
+        out["ok"] = bool(et == {"none"} and np.isfinite(est).all() and (np.abs(est) <= 1 + 1e-12).all())
+    return out
